@@ -1,0 +1,43 @@
+//go:build verif
+
+// Contracts for extensions.go (properties C12, C13). Comment-only.
+
+package pubsub
+
+// Extension-handshake state: what a peer sent us lives as long as its inbound stream, what we
+// sent it as long as our outbound stream; closing either direction drops exactly that peer's
+// entry, in whatever order the two directions close.
+//@ func (*extensionsState).OnClosedIncomingStream
+//@   property C13
+//@   requires maps: es.peerExtensions != nil
+//@   noframe
+//@   ensures forgotten: !(id in es.peerExtensions) && es.peerExtensions != nil
+//@   ensures others: forall q string :: q != id ==> (q in es.peerExtensions) == old(q in es.peerExtensions) && es.peerExtensions[q] == old(es.peerExtensions[q])
+//@   ensures sent-untouched: es.sentExtensions == old(es.sentExtensions) && (forall q string :: (q in es.sentExtensions) == old(q in es.sentExtensions))
+
+//@ func (*extensionsState).OnClosedOutboundStream
+//@   property C13
+//@   requires maps: es.sentExtensions != nil && es.peerExtensions != nil
+//@   noframe
+//@   ensures forgotten: !(id in es.sentExtensions) && es.sentExtensions != nil
+//@   ensures others: forall q string :: q != id ==> (q in es.sentExtensions) == old(q in es.sentExtensions)
+//@   ensures extension-cleanup-iff-both-known: calls((*extensionsState).extensionsOnClosedOutboundStream) - old(calls((*extensionsState).extensionsOnClosedOutboundStream)) ==
+//@        ite(old(id in es.peerExtensions) && old(id in es.sentExtensions), 1, 0)
+
+//@ func (*extensionsState).OnNewOutboundStream
+//@   property C13
+//@   requires maps: es.sentExtensions != nil && es.peerExtensions != nil
+//@   noframe
+//@   ensures recorded: id in es.sentExtensions
+//@   ensures others: forall q string :: q != id ==> (q in es.sentExtensions) == old(q in es.sentExtensions)
+//@   ensures received-untouched: forall q string :: (q in es.peerExtensions) == old(q in es.peerExtensions)
+
+// The router forwards stream-close events to the gater and (for peers speaking a protocol with
+// extensions) to the extension state.
+//@ func (*GossipSubRouter).OnClosedIncomingStream
+//@   property C13
+//@   requires extensions-state: gs.extensions != nil && gs.extensions.peerExtensions != nil
+//@   noframe
+//@   ensures gater-told: old(gs.gate) != nil ==> calls((*peerGater).OnClosedIncomingStream) == old(calls((*peerGater).OnClosedIncomingStream)) + 1 && lastarg((*peerGater).OnClosedIncomingStream, 1) == pid
+//@   ensures extensions-told: lastret(dyn:feature) && old(gs.extensions) != nil && old(gs.extensions.peerExtensions) != nil ==> calls((*extensionsState).OnClosedIncomingStream) == old(calls((*extensionsState).OnClosedIncomingStream)) + 1 &&
+//@        lastarg((*extensionsState).OnClosedIncomingStream, 1) == pid
